@@ -251,6 +251,10 @@ class C16(Check):
         t0 = time.time()
         pid = self.ID
         known = load_known(pid)
+        # VERIF_C16_IGNORE_KNOWN=key1,key2: treat these known_findings lines as absent (used to verify a
+        # candidate fix in a private worktree without editing the shared known_findings.jsonl)
+        ignore = set(k for k in os.environ.get("VERIF_C16_IGNORE_KNOWN", "").split(",") if k)
+        known = [e for e in known if e.get("key") not in ignore]
         known_keys = sorted(e["key"] for e in known if e.get("status") == "known" and e.get("key"))
         tmpd = tempfile.mkdtemp(prefix="c16_", dir=os.environ.get("VERIF_TMPDIR") or "/tmp")
         try:
